@@ -266,4 +266,3 @@ func ruleC03Wakers(c *ctx.Ctx, r *core.Reporter) {
 	}
 	r.Check(n >= 4, "entries", "compiler/prelude/goroutines.js", fmt.Sprintf("%d wait-queue entries examined", n))
 }
-
